@@ -3,7 +3,7 @@ import copy
 
 from hypothesis import strategies as st
 
-from vlib import gen, ops, twin
+from vlib import binarizers, gen, ops, twin
 from vlib.runner import Result, SubCheck, Violation
 
 PROPERTY = "C20"
@@ -42,7 +42,7 @@ def map_binarizer(desc, mp, pairs=()):
         # labels (the same function of (arm, reward) composed with the renaming)
         tab = {k: t for k, t in desc["table"]}
         return dict({k: v for k, v in desc.items() if k not in ("kind", "table")}, kind="threshold", op="ge",
-                    table=[[y, tab.get(str(x), desc.get("default", 0))] for x, y in pairs])
+                    table=[[y, tab.get(binarizers.key_of(x), desc.get("default", 0))] for x, y in pairs])
     if desc is None or desc.get("kind") != "threshold":
         return desc
     d = copy.deepcopy(desc)
